@@ -381,6 +381,12 @@ func (u *Universe) dispatchCond(f *Term, cands []string) *Term {
 
 // typeInvariant: range facts of a Go type (bytes in strings are 0..255 is left to axioms on use).
 func (fc *FuncCtx) typeInvariant(v *Term, t types.Type) *Term {
+	if t == nil {
+		return TTrue
+	}
+	if at, ok := t.Underlying().(*types.Array); ok && v.Sort.IsSeq() {
+		return Eq(SeqLen(v), IntLit(at.Len()))
+	}
 	if b, ok := t.Underlying().(*types.Basic); ok && v.Sort == SInt {
 		switch b.Kind() {
 		case types.Uint8:
@@ -511,6 +517,24 @@ func (ex *Exec) evalDesig(env *Env, d *Desig) []assignLoc {
 		}
 		_ = fv
 	case *ECall:
+		if as, ok := u.asets[e.Fun]; ok {
+			n := env.clone()
+			if len(e.Args) != len(as.Params) {
+				env.fail(d.P, "frame %s: wrong number of arguments", as.Name)
+			}
+			for i, prm := range as.Params {
+				v := env.eval(e.Args[i])
+				if _, t, err := u.specSort(prm.Type); err == nil && t != nil {
+					v.Typ = t
+				}
+				n.vars[prm.Name] = v
+			}
+			var out []assignLoc
+			for _, dd := range as.Desigs {
+				out = append(out, ex.evalDesig(n, dd)...)
+			}
+			return out
+		}
 		switch e.Fun {
 		case "all":
 			m := env.eval(e.Args[0])
